@@ -7,7 +7,7 @@ import subprocess
 
 import queuedefs
 from framework import HARNESS, TRUSTED, Check
-from tla import OUT, ToolError, parse_printed, run_tlc
+from tla import OUT, ToolError, parse_printed, run_tlc, confirm_rejection
 
 
 def harness(inp, wd, tag):
@@ -73,8 +73,11 @@ def validate_traces(cap, producers, runs, wd, tag):
         for i, r in enumerate(remaining):
             if n < pos + len(r):
                 accepted += i
-                rejections.append((r, n - pos, r[n - pos] if n - pos < len(r) else None, reason))
                 remaining = remaining[i + 1:]
+                if confirm_rejection(mod, mod + ".cfg", wd, tag, r, res, heap="4g"):
+                    rejections.append((r, n - pos, r[n - pos] if n - pos < len(r) else None, reason))
+                else:
+                    accepted += 1
                 break
             pos += len(r)
         else:
